@@ -173,30 +173,24 @@ class TractParser:
         remaining_text = text
         while True:
             # Run this loop, pulling the next aliquot match until we run out.
-            aliq_mo = aliquot_unpacker_regex.search(remaining_text)
+            # Also pull out "ALL" as an aliquot if it is clear of any
+            # context (e.g., pull "ALL" but not "All of the").
+            aliq_mo = aliquot_or_clear_all_regex.search(remaining_text)
             if aliq_mo is None:
                 break
             else:
                 # TODO: Implement context awareness. Should not pull aliquots
                 #   before "of Section ##", for example.
                 aliq_block = aliq_mo.group()
-                aliquot_blocks.append(aliq_block)
                 start, end = aliq_mo.start(), aliq_mo.end()
                 remaining_text = f"{remaining_text[:start]};;{remaining_text[end:]}"
+                if aliq_mo['all'] is not None:
+                    aliquot_blocks.append(_ALL)
+                    continue
+                aliquot_blocks.append(aliq_block)
                 # Strip fractions and store the whole aliquot.
                 self.aliquots_whole.append(remove_fractions(aliq_block))
         text = remaining_text
-
-        # And also pull out "ALL" as an aliquot if it is clear of any
-        # context (e.g., pull "ALL" but not "All of the").  First, get a
-        # working text string, and replace each group of whitespace with
-        # a single space.
-        check_for_acceptable_all = re.sub(r'\s+', ' ', text).strip()
-        all_mo = all_regex.search(check_for_acceptable_all)
-        if all_mo is not None:
-            if all_mo['context'] is None:
-                # If we ONLY found 'ALL', then we're good.
-                aliquot_blocks.append(_ALL)
 
         # Now that we have list of text blocks, each containing a separate
         # aliquot, parse each of them into QQ's (or smaller, if further
